@@ -94,4 +94,12 @@ theorem modInt_is_arithM (x y : Int) :
   rw [modInt_eq]
   by_cases hy : y = 0 <;> simp [arithM, hy]
 
+-- OBLIGATION: PysparklingVerif.Extracted.C12.divRat_is_ratArith
+/-- `Divide.unsafe_operation` (`value1 / value2 if value2 != 0 else None`), on numbers as exact rationals, is the model's
+division: null for a zero divisor, the quotient otherwise -/
+theorem divRat_is_ratArith (x y : Rat) :
+    ratArith .div x y = (match divRat x y with | none => .null | some q => .dbl q) := by
+  unfold divRat ratArith
+  by_cases hy : y = 0 <;> simp [hy]
+
 end PysparklingVerif.Extracted.C12
